@@ -167,8 +167,11 @@ theorem diagnostics_report_order_independent (ids : Nat → Nat) (hi : Inj ids)
    — the ids are allocation numbers: module references are numbered in enumeration order of the
    modules, heap strings (> 15 bytes) in parse order, which follows the hash seed. -/
 
-/-- **diagnostics_depend_on_ids_counterexample** (known finding C12-F1): two modules with one
-error each; numbering the modules in the other order swaps the two rendered blocks. -/
+/-- **diagnostics_depend_on_ids_counterexample** (finding C12-F1, fixed by /repo cc1fd59 for the
+report of `compile_sources`, which is now rendered in module-name order — see
+`diagnostics_by_name_independent_of_module_ids` in Props/C12g.lean; the statement below remains
+true of `ErrorSet::pretty_print_error_messages`, whose order a golden test pins): two modules with
+one error each; numbering the modules in the other order swaps the two rendered blocks. -/
 theorem diagnostics_depend_on_ids_counterexample :
     ∃ (ids ids' : Nat → Nat) (pm : List (List Err)), Inj ids ∧ Inj ids' ∧
       render ids pm ≠ render ids' pm :=
